@@ -198,6 +198,91 @@ def property_failure(impl, text, k):
 
 
 # ---------------------------------------------------------------------------
+# the formatter as users run it: compiler/front_end/format.py (emboss-format)
+# ---------------------------------------------------------------------------
+
+class Driver:
+    """Runs format.main in-process on real files under `d` and observes stdout, stderr, exit status and
+    the file contents afterwards."""
+
+    def __init__(self, d):
+        from compiler.front_end import format as fmt_driver
+        self.m, self.d, self.n = fmt_driver, d, 0
+        shutil.rmtree(d, ignore_errors=True)
+        os.makedirs(d)
+
+    def write(self, text):
+        self.n += 1
+        p = os.path.join(self.d, "f%05d.emb" % self.n)
+        with open(p, "w", encoding="utf-8", newline="") as f:
+            f.write(text)
+        return p
+
+    @staticmethod
+    def read(p):
+        with open(p, encoding="utf-8", newline="") as f:
+            return f.read()
+
+    def run(self, args):
+        import contextlib
+        import io
+        out = io.StringIO()
+        errp = os.path.join(self.d, "stderr.txt")       # a real file: the driver asks stderr for its fileno()
+        with open(errp, "w", encoding="utf-8") as err:
+            try:
+                with contextlib.redirect_stdout(out), contextlib.redirect_stderr(err):
+                    rc = self.m.main(["emboss-format"] + [str(a) for a in args])
+            except SystemExit as ex:
+                rc = "SystemExit(%s)" % ex.code
+            except Exception as ex:  # noqa
+                rc = "raised %s: %s" % (type(ex).__name__, str(ex)[:150])
+        return rc, out.getvalue(), open(errp, encoding="utf-8").read()
+
+
+def driver_case(drv, impl, text, k, mode):
+    """One use of the command line on a file holding `text`.  -> (result text or None, failure or None).
+    The result is compared with the ORIGINAL text: independent Python criterion here, verified criterion
+    on model tokens later; and with what the library call returns for the same text."""
+    tree = impl.parse(text)
+    if tree is None:
+        return None, None
+    try:
+        api = impl.fmt(tree, k)
+    except Exception:  # noqa  (reported by the library-level part)
+        return None, None
+    p = drv.write(text)
+    if mode == "stdout":
+        rc, out, err = drv.run(["--no-edit-in-place", "--indent", k, p])
+        res, after = out, drv.read(p)
+        if after != text:
+            return res, "--no-edit-in-place modified the input file"
+    elif mode in ("inplace", "inplace-nocheck"):
+        rc, out, err = drv.run((["--no-check-result"] if mode == "inplace-nocheck" else []) + ["--indent", k, p])
+        res = drv.read(p)
+        if out:
+            return res, "in-place run wrote to stdout"
+    elif mode == "default-indent":
+        rc, out, err = drv.run(["--no-edit-in-place", p])
+        res = out
+        api = impl.fmt(tree, 2)
+    else:
+        raise ValueError(mode)
+    if rc != 0:
+        return res, "exit status %r (stderr %r)" % (rc, err[:200])
+    if err.strip():
+        return res, "succeeded but wrote to stderr: %r" % err[:200]
+    if not impl.py_equiv(text, res):
+        return res, "command-line result is not token-equivalent to the original file"
+    if res != api:
+        return res, "command-line result differs from format_emboss_parse_tree on the same text"
+    return res, None
+
+
+def driver_failure(drv, impl, text, k, mode):
+    return driver_case(drv, impl, text, k, mode)[1]
+
+
+# ---------------------------------------------------------------------------
 # known defect mechanisms: a failure is attributed to one only if neutralising exactly that
 # construct in the input makes the property hold again; everything else keeps a generic key
 # ---------------------------------------------------------------------------
@@ -433,6 +518,9 @@ def run(ctx):
                 "spaces or tabs, blank lines added/removed, comment lines and trailing comments with odd indentation, blocks spliced "
                 "between files at equal indentation, dropped line ranges, CRLF, missing final newline) x indent width 1..8.  Per case: "
                 "no exception; model-tokenized output fmt_equiv to model-tokenized input (verified checker); output parses; formatting the "
+                "output again is the identity; the same through the command-line driver format.py on real files (stdout, in place, --no-check-result, "
+                "several files, rejected inputs, launcher), compared with the ORIGINAL file text; token-text sweep: string constants / docs / comments "
+                "with interior blank runs, tabs, escapes, NBSP, non-ASCII at every scope; "
                 "output again is the identity; Python's self check and its model agree.  Plus perturbed (formatted, original) pairs for "
                 "the self-check model.  Non-trivial = the formatted text differs from the input; distinct by (text, indent)")
     ctx.trusted = ["Coq 8.16.1 kernel, vm_compute", "extraction (ExtrOcamlBasic) + OCaml driver (sampled against vm_compute)",
@@ -548,8 +636,8 @@ def run(ctx):
         if tree is None:
             ctx.count("unparseable:" + shape)
             continue
-        if shape in ("mutant", "generated-module", "sweep-operators", "sweep-row-tails") and not ctx.thorough():
-            widths = ctx.rng.sample(widths_all, 1 if shape.startswith("sweep") else 3)
+        if shape in ("mutant", "generated-module", "sweep-operators", "sweep-row-tails", "sweep-token-text") and not ctx.thorough():
+            widths = ctx.rng.sample(widths_all, {"sweep-operators": 1, "sweep-row-tails": 1, "sweep-token-text": 2}.get(shape, 3))
         else:
             widths = widths_all
         for k in widths:
@@ -575,9 +663,69 @@ def run(ctx):
             if why:
                 failures.append((text, k, why))
             cases.append(dict(text=text, k=k, out=out, shape=shape, py_sanity=py_s, kind="format"))
+    # ---- the command-line driver on real files ------------------------------------------------------
+    drv = Driver(os.path.join(ctx.bdir, "driver"))
+    driver_failures = []      # (text, k, mode, why)
+    modes = ["stdout", "stdout", "inplace", "inplace-nocheck", "default-indent"]
+    parseable = [(sh, tx) for sh, tx in texts if len(tx) < 20000]
+    token_text = [x for x in parseable if x[0] == "sweep-token-text"]
+    others = [x for x in parseable if x[0] != "sweep-token-text"]
+    chosen = token_text + [x for x in others if x[0] in ("corpus", "corpus-replay", "replay")] + \
+        ctx.rng.sample(others, min(len(others), 1500 if ctx.thorough() else 250))
+    seen_drv = set()
+    for shape, text in chosen:
+        for mode in (modes if (shape == "sweep-token-text" and ctx.thorough()) else [ctx.rng.choice(modes)] + (["stdout"] if shape == "sweep-token-text" else [])):
+            k = ctx.rng.choice(widths_all)
+            if (text, k, mode) in seen_drv:
+                continue
+            seen_drv.add((text, k, mode))
+            res, why = driver_case(drv, impl, text, k, mode)
+            if res is None and why is None:
+                continue
+            ctx.count("driver:" + mode)
+            if why:
+                driver_failures.append((text, k, mode, why))
+            cases.append(dict(text=text, k=(2 if mode == "default-indent" else k), out=res, shape="driver-" + mode,
+                              py_sanity=impl.sanity(res, text), kind="driver", mode=mode))
+    # several files at once (in place), and the refusal of several files with --no-edit-in-place
+    multi = [tx for sh, tx in chosen if impl.parse(tx) is not None][:40]
+    for i in range(0, len(multi) - 2, 3):
+        grp = multi[i:i + 3]
+        k = ctx.rng.choice(widths_all)
+        ps = [drv.write(tx) for tx in grp]
+        rc, out, err = drv.run(["--indent", k] + ps)
+        ctx.count("driver:several-files")
+        for tx, p_ in zip(grp, ps):
+            res = drv.read(p_)
+            if rc != 0 or out or not impl.py_equiv(tx, res) or res != impl.fmt(impl.parse(tx), k):
+                driver_failures.append((tx, k, "inplace", "several files at once: exit %r, file result wrong" % (rc,)))
+        rc, out, err = drv.run(["--no-edit-in-place"] + ps)
+        if rc == 0 or out or any(drv.read(p_) != impl.fmt(impl.parse(tx), k) for tx, p_ in zip(grp, ps)):
+            driver_failures.append((grp[0], k, "stdout", "several files with --no-edit-in-place: expected a refusal (non-zero exit, nothing written)"))
+    # failure paths: files that do not tokenize / do not parse must be left untouched, with a message
+    for bad_text in ["struct Foo:\n  0 [+1]  UInt  a ~\n", "struct Foo:\n    0 [+1]  UInt  a\n  1 [+1]  UInt  b\n", "struct Foo:\n  0 [+1]  UInt\n",
+                     "struct foo:\n  0 [+1]  UInt  a\n", "struct Foo:\n\t0 [+1]  UInt  a\n        1 [+1]  UInt  b\n", "enum Kind:\n  A = 1\n"]:
+        for args in ([], ["--no-check-result"], ["--no-edit-in-place"]):
+            p_ = drv.write(bad_text)
+            rc, out, err = drv.run(args + [p_])
+            ctx.count("driver:rejected-input")
+            if drv.read(p_) != bad_text or out or not err.strip() or not isinstance(rc, int):
+                driver_failures.append((bad_text, 2, "inplace", "rejected input: file changed / output produced / no message / crash (exit %r)" % (rc,)))
+    # the launcher script itself, as a subprocess
+    launcher = os.path.join(fw.REPO, "emboss-format")
+    for shape, text in token_text[:3] + others[:2]:
+        if impl.parse(text) is None:
+            continue
+        p_ = drv.write(text)
+        rc, out = fw.sh([fw.PY, launcher, "--no-edit-in-place", "--indent", "4", p_], timeout=120, env=fw.repo_env(), cwd=drv.d)
+        ctx.count("driver:launcher-subprocess")
+        expect = impl.fmt(impl.parse(text), 4)
+        if rc != 0 or "\n".join(l for l in out.split("\n") if "WARNING conda" not in l) != expect:
+            driver_failures.append((text, 4, "stdout", "emboss-format launcher: exit %r or output differs from the library result" % (rc,)))
+
     # perturbed pairs for the self-check model
     r = ctx.rng
-    fmt_cases = [c for c in cases]
+    fmt_cases = [c for c in cases if c["kind"] == "format"]
     for c in r.sample(fmt_cases, min(len(fmt_cases), 600 if ctx.thorough() else 150)):
         lines = c["out"].split("\n")
         k = r.random()
@@ -610,6 +758,9 @@ def run(ctx):
         nontrivial = c["out"] != c["text"]
         ctx.case((c["text"], c["k"], c["kind"], c["out"] if c["kind"] == "pair" else ""), nontrivial=nontrivial,
                  sample={"shape": c["shape"], "indent": c["k"], "text": c["text"][:80], "formatted": c["out"][:80], "verdict": v, "selfcheck": s})
+        if c["kind"] == "driver":
+            if v != "equiv" and not any(f[0] == c["text"] and f[2] == c["mode"] for f in driver_failures):
+                driver_failures.append((c["text"], c["k"], c["mode"], "command-line result is not fmt_equiv to the original file (model verdict %s)" % v))
         if c["kind"] == "format":
             if v != "equiv":
                 n_noneq += 1
@@ -648,6 +799,10 @@ def run(ctx):
                    "formatting it again is the identity, no exception; %d further (text, indent) pairs fail and are attributed to the mechanisms %s"
                    % (n_fmt - n_attr - len(unexplained), n_attr, sorted(by_key)), not unexplained)
     ctx.obligation("correspondence: model of sanity_check_format_result = Python on %d pairs" % len(cases), n_sdis == 0)
+    n_drv = sum(1 for c in cases if c["kind"] == "driver")
+    ctx.obligation("command line (compiler/front_end/format.py: --no-edit-in-place, in place, --no-check-result, default and explicit --indent, "
+                   "several files, rejected inputs left untouched, emboss-format launcher): %d results are fmt_equiv to the ORIGINAL file text "
+                   "(verified checker on model tokens), equal to the library result, exit status 0, nothing on stderr" % n_drv, not driver_failures)
 
     # a sample inside Coq (extraction is a speed-up, not a premise)
     small = [c for c in cases if len(c["text"]) + len(c["out"]) < 1500]
@@ -707,6 +862,24 @@ def run(ctx):
         ctx.violation("formatter:" + classify(msg), "C11 fails for indent %d on %r...: %s" % (k, small_text[:120], msg),
                       dict(kind="text", text=small_text, indent=k, failure=msg, replay=replay_txt), found_input=True)
         reported += 1
+    # the command-line driver
+    seen_drv_keys = set()
+    for text, k, mode, why in sorted(driver_failures, key=lambda f: len(f[0])):
+        cls = ("changes-tokens" if "equiv" in why else "differs-from-library" if "differs from" in why else
+               "rejected-input-handling" if "rejected input" in why else "several-files" if "several files" in why else
+               "launcher" if "launcher" in why else "exit-status-or-stderr")
+        if cls in seen_drv_keys or len(seen_drv_keys) >= 3:
+            continue
+        seen_drv_keys.add(cls)
+        small = text
+        if cls in ("changes-tokens", "differs-from-library", "exit-status-or-stderr") and driver_failure(drv, impl, text, k, mode):
+            small = shrink_lines(text, lambda s_: impl.parse(s_) is not None and driver_failure(drv, impl, s_, k, mode) is not None, seconds=10)
+            why = driver_failure(drv, impl, small, k, mode) or why
+        ctx.violation("formatter-driver:" + cls, "emboss-format (%s, indent %d) on a file containing %r: %s" % (mode, k, small[:160], why),
+                      dict(kind="file", text=small, codepoints=[ord(ch) for ch in small], indent=k, mode=mode, failure=why,
+                           replay="write text to f.emb (UTF-8); compiler/front_end/format.py main(['emboss-format', <mode options>, '--indent', N, 'f.emb']); "
+                                  "compare stdout / the file with the original text by fmt_equiv and with format_emboss_parse_tree"),
+                      found_input=True)
     # regression guard for fix 7fc177c (the key is listed as fixed, so this is never suppressed)
     r_extra, r_short = impl.sanity("a\nb\n", "a\n"), impl.sanity("a\n", "a\nb\n")
     if r_extra == "ok" or r_short == "indexerror":
